@@ -3,8 +3,12 @@ package main
 // rules_aws.go — C17, C18, C19 (AWS provider) and the shared provider-bound rule.
 
 import (
+	"fmt"
 	"go/constant"
+	"go/token"
 	"go/types"
+	"sort"
+	"strings"
 
 	"golang.org/x/tools/go/ssa"
 )
@@ -61,4 +65,430 @@ func (ck *Check) providerBounds(rule string) {
 		ck.cond(okv, rule, key, ck.P.instrPos(ci), funcID(fn), "PC ⇒ δ ≥ 1 ∧ TargetSize + δ ≤ MaxSize at every call of IncreaseSize that can reach an AWS write", pc.String(), why)
 	}
 	ck.floor(rule, "write-reaching calls in aws IncreaseSize", n, 2)
+}
+
+// ---------------------------------------------------------------------------------------------
+// C07.R5 — typestate on the provider's cached desired capacity
+
+type cacheTS struct {
+	ck        *Check
+	fDesired  *types.Var
+	fAsg      *types.Var
+	mutCalls  map[ssa.Instruction]string
+	retCached map[*ssa.Function]bool
+	readSites map[*ssa.Function][]ssa.Instruction
+	readsIn   map[*ssa.Function]bool
+	dirtyOut  map[*ssa.Function]bool
+}
+
+func (ck *Check) newCacheTS() *cacheTS {
+	ts := &cacheTS{ck: ck, mutCalls: map[ssa.Instruction]string{}, retCached: map[*ssa.Function]bool{}, readSites: map[*ssa.Function][]ssa.Instruction{}, readsIn: map[*ssa.Function]bool{}, dirtyOut: map[*ssa.Function]bool{}}
+	awsNG := ck.A.named(pkgAWS, "NodeGroup")
+	ts.fAsg = field(awsNG, "asg")
+	if ts.fAsg != nil {
+		if st := derefStruct(ts.fAsg.Type()); st != nil {
+			for i := 0; i < st.NumFields(); i++ {
+				if st.Field(i).Name() == "DesiredCapacity" {
+					ts.fDesired = st.Field(i)
+				}
+			}
+		}
+	}
+	for _, w := range ck.A.W {
+		switch w.Class {
+		case "W-ASG-TERM", "W-ASG-SET", "W-ASG-ATT":
+			ts.mutCalls[w.Call] = w.Class
+		}
+	}
+	return ts
+}
+
+func isLogCallee(f *ssa.Function) bool {
+	p := pkgPathOfFn(f)
+	return strings.HasPrefix(p, "github.com/sirupsen/logrus") || strings.HasPrefix(p, "github.com/prometheus/")
+}
+
+// analyse classifies the *read points* of fn: a read point is a load of the cached desired
+// capacity, or a call of a function returning a value derived from it. It is a decisive READ if
+// the value's forward slice reaches a branch, a non-logging call, a store other than the cache
+// update itself; it makes fn "return cached" if the slice reaches a return.
+func (ts *cacheTS) analyse(fn *ssa.Function) (reads []ssa.Instruction, returns bool) {
+	p := ts.ck.P
+	var sources []ssa.Value
+	for _, b := range fn.Blocks {
+		for _, in := range b.Instrs {
+			switch x := in.(type) {
+			case *ssa.UnOp:
+				if x.Op == token.MUL && fieldOfAddr(x.X) == ts.fDesired {
+					sources = append(sources, x)
+				}
+			case *ssa.Call:
+				for _, g := range p.calleesOf(x) {
+					if ts.retCached[g] {
+						sources = append(sources, x)
+						break
+					}
+				}
+			}
+		}
+	}
+	for _, src := range sources {
+		decisive, ret := ts.slice(src)
+		if ret {
+			returns = true
+		}
+		if decisive {
+			reads = append(reads, src.(ssa.Instruction))
+		}
+	}
+	return reads, returns
+}
+
+func (ts *cacheTS) slice(src ssa.Value) (decisive, returns bool) {
+	p := ts.ck.P
+	tainted := map[ssa.Value]bool{src: true}
+	work := []ssa.Value{src}
+	add := func(v ssa.Value) {
+		if v != nil && !tainted[v] {
+			tainted[v] = true
+			work = append(work, v)
+		}
+	}
+	for len(work) > 0 {
+		v := work[len(work)-1]
+		work = work[:len(work)-1]
+		refs := v.Referrers()
+		if refs == nil {
+			continue
+		}
+		for _, r := range *refs {
+			switch x := r.(type) {
+			case *ssa.BinOp:
+				add(x)
+			case *ssa.UnOp:
+				add(x)
+			case *ssa.Convert:
+				add(x)
+			case *ssa.ChangeType:
+				add(x)
+			case *ssa.MakeInterface:
+				add(x)
+			case *ssa.Phi:
+				add(x)
+			case *ssa.Extract:
+				add(x)
+			case *ssa.Slice:
+				add(x)
+			case *ssa.DebugRef:
+			case *ssa.Return:
+				returns = true
+			case *ssa.If:
+				decisive = true
+			case *ssa.Store:
+				if x.Val != v {
+					continue
+				}
+				if fieldOfAddr(x.Addr) == ts.fDesired {
+					continue // the cache update itself
+				}
+				if ia, ok := x.Addr.(*ssa.IndexAddr); ok {
+					if al, ok := ia.X.(*ssa.Alloc); ok && al.Comment == "varargs" {
+						for _, rr := range *al.Referrers() {
+							if sl, ok := rr.(*ssa.Slice); ok {
+								add(sl)
+							}
+						}
+						continue
+					}
+				}
+				decisive = true
+			case *ssa.Call:
+				c := x.Common()
+				if _, isB := c.Value.(*ssa.Builtin); isB {
+					add(x)
+					continue
+				}
+				if f := c.StaticCallee(); f != nil && !p.inRepo(f) {
+					if isLogCallee(f) {
+						continue
+					}
+					if pureExternal(f) {
+						add(x)
+						continue
+					}
+				}
+				decisive = true
+			default:
+				decisive = true
+			}
+		}
+	}
+	return decisive, returns
+}
+
+// successEdge: for a MUT call whose error result is tested in the same block, the successor
+// taken when err == nil; nil when the error is not tested there.
+func successEdge(call ssa.Instruction) (blk *ssa.BasicBlock, succ *ssa.BasicBlock) {
+	cv, ok := call.(*ssa.Call)
+	if !ok {
+		return nil, nil
+	}
+	b := cv.Block()
+	br, ok := b.Instrs[len(b.Instrs)-1].(*ssa.If)
+	if !ok {
+		return nil, nil
+	}
+	cmp, ok := br.Cond.(*ssa.BinOp)
+	if !ok || (cmp.Op != token.NEQ && cmp.Op != token.EQL) {
+		return nil, nil
+	}
+	ex, ok := cmp.X.(*ssa.Extract)
+	if !ok || ex.Tuple != ssa.Value(cv) {
+		return nil, nil
+	}
+	if k, ok := cmp.Y.(*ssa.Const); !ok || k.Value != nil {
+		return nil, nil
+	}
+	if cmp.Op == token.NEQ {
+		return b, b.Succs[1]
+	}
+	return b, b.Succs[0]
+}
+
+type tsViolation struct {
+	fn   *ssa.Function
+	in   ssa.Instruction
+	what string
+}
+
+// flow runs the may-be-dirty dataflow over fn; returns dirty-at-return and violations.
+func (ts *cacheTS) flow(fn *ssa.Function) (bool, []tsViolation) {
+	p := ts.ck.P
+	n := len(fn.Blocks)
+	in := make([]bool, n)
+	reached := make([]bool, n)
+	reached[0] = true
+	isRead := map[ssa.Instruction]bool{}
+	for _, r := range ts.readSites[fn] {
+		isRead[r] = true
+	}
+	var viol []tsViolation
+	seenV := map[ssa.Instruction]bool{}
+	dirtyRet := false
+	for changed := true; changed; {
+		changed = false
+		dirtyRet = false
+		for _, b := range fn.Blocks {
+			if !reached[b.Index] {
+				continue
+			}
+			dirty := in[b.Index]
+			var splitSucc *ssa.BasicBlock
+			for _, ins := range b.Instrs {
+				if isRead[ins] && dirty && !seenV[ins] {
+					seenV[ins] = true
+					viol = append(viol, tsViolation{fn, ins, "the cached desired capacity is read for a decision after an AWS mutation that was not mirrored into the cache"})
+				}
+				if ci, ok := ins.(ssa.CallInstruction); ok {
+					for _, g := range p.calleesOf(ci) {
+						if ts.readsIn[g] && dirty && !seenV[ins] {
+							seenV[ins] = true
+							viol = append(viol, tsViolation{fn, ins, "call to " + funcID(g) + ", which reads the cached desired capacity, after an unmirrored AWS mutation"})
+						}
+					}
+					for _, g := range p.calleesOf(ci) {
+						if ts.dirtyOut[g] {
+							dirty = true
+						}
+					}
+					if _, isMut := ts.mutCalls[ins]; isMut {
+						if _, succ := successEdge(ins); succ != nil {
+							splitSucc = succ
+						} else {
+							dirty = true
+						}
+					}
+				}
+				if st, ok := ins.(*ssa.Store); ok {
+					f := fieldOfAddr(st.Addr)
+					if f != nil && (f == ts.fDesired || f == ts.fAsg) {
+						dirty = false
+					}
+				}
+				if _, ok := ins.(*ssa.Return); ok && dirty {
+					dirtyRet = true
+				}
+			}
+			for _, s := range b.Succs {
+				out := dirty
+				if splitSucc != nil && s == splitSucc {
+					out = true
+				}
+				if !reached[s.Index] || (out && !in[s.Index]) {
+					reached[s.Index] = true
+					if out {
+						in[s.Index] = true
+					}
+					changed = true
+				}
+			}
+		}
+	}
+	return dirtyRet, viol
+}
+
+func (ck *Check) cacheTypestate(rule string) {
+	a := ck.A
+	ts := ck.newCacheTS()
+	if ts.fDesired == nil || ts.fAsg == nil {
+		ck.lost(rule, "aws.NodeGroup.asg / autoscaling.Group.DesiredCapacity", "fields not found")
+		return
+	}
+	ck.floor(rule, "AWS mutation sites (terminate / set / attach)", len(ts.mutCalls), 4)
+	// fixpoint on retCached / readSites / readsIn / dirtyOut
+	for iter := 0; iter < 10; iter++ {
+		changed := false
+		for _, fn := range ck.P.Funcs {
+			reads, ret := ts.analyse(fn)
+			if ret && !ts.retCached[fn] {
+				ts.retCached[fn] = true
+				changed = true
+			}
+			if len(reads) != len(ts.readSites[fn]) {
+				ts.readSites[fn] = reads
+				changed = true
+			}
+			ri := len(reads) > 0
+			for _, g := range ck.P.callees[fn] {
+				if ts.readsIn[g] {
+					ri = true
+				}
+			}
+			if ri && !ts.readsIn[fn] {
+				ts.readsIn[fn] = true
+				changed = true
+			}
+			d, _ := ts.flow(fn)
+			if d && !ts.dirtyOut[fn] {
+				ts.dirtyOut[fn] = true
+				changed = true
+			}
+		}
+		if !changed {
+			break
+		}
+	}
+	nread := 0
+	for _, rs := range ts.readSites {
+		nread += len(rs)
+	}
+	ck.floor(rule, "decisive reads of the cached desired capacity", nread, 4)
+	reach := ck.P.reachCut([]*ssa.Function{a.Scan}, nil)
+	nv := 0
+	var fns []*ssa.Function
+	for fn := range reach {
+		fns = append(fns, fn)
+	}
+	sort.Slice(fns, func(i, j int) bool { return funcID(fns[i]) < funcID(fns[j]) })
+	for _, fn := range fns {
+		_, viol := ts.flow(fn)
+		for _, v := range viol {
+			nv++
+			key := funcID(fn) + "/stale-desired-capacity"
+			if ci, ok := v.in.(ssa.CallInstruction); ok {
+				key = ck.P.siteKey(ci) + "/stale-desired-capacity"
+			}
+			ck.fail(rule, key, ck.P.instrPos(v.in), funcID(fn), "within one scan no decision reads the cached ASG desired capacity after a terminate / set / attach that was not mirrored into the cache", v.in.String(), v.what)
+		}
+	}
+	if nv == 0 {
+		var dirty []string
+		for fn, d := range ts.dirtyOut {
+			if d && reach[fn] {
+				dirty = append(dirty, funcID(fn))
+			}
+		}
+		sort.Strings(dirty)
+		ck.ok(rule, "scan/fresh-base", "", funcID(a.Scan), "within one scan no decision reads the cached ASG desired capacity after an unmirrored AWS mutation", fmt.Sprintf("%d functions analysed; may return with an unmirrored mutation: %s", len(fns), strings.Join(dirty, ", ")))
+	}
+}
+
+// absoluteSet (C17.R2 / C07.R6): SetDesiredCapacity is called once, outside any loop, with
+// DesiredCapacity = Int64(TargetSize + δ) and the group's own name.
+func (ck *Check) absoluteSet(rule string) {
+	a := ck.A
+	if !ck.need(rule, map[string]interface{}{"aws IncreaseSize": a.AwsIncrease, "set-capacity strategy": a.AwsSetSize}) {
+		return
+	}
+	inc := a.AwsIncrease
+	ctx := ck.P.NewCtx(inc)
+	recv, delta := paramTerm(inc.Params[0]), paramTerm(inc.Params[1])
+	ts := &Term{Kind: "call", Name: funcID(a.AwsTargetSize), Fn: a.AwsTargetSize, Obj: a.AwsTargetSize.Object(), Args: []*Term{recv}, Typ: types.Typ[types.Int64]}
+	want := &Term{Kind: "binop", Name: "+", Args: []*Term{ts, delta}}
+	if want.Args[0].Key() > want.Args[1].Key() {
+		want.Args[0], want.Args[1] = want.Args[1], want.Args[0]
+	}
+	cs := callsTo(inc, a.AwsSetSize)
+	for _, ci := range cs {
+		arg := ctx.Term(ci.Common().Args[1])
+		env := &linEnv{choices: map[string]int{}, root: ctx}
+		l1, e1 := env.linTerm(arg)
+		l2, e2 := env.linTerm(want)
+		same := false
+		if e1 == nil && e2 == nil {
+			d := l1.add(l2, -1)
+			same = d.isConst() && d.konst.Sign() == 0
+		}
+		ck.cond(same, rule, ck.P.siteKey(ci)+"/absolute", ck.P.instrPos(ci), funcID(inc), "the set-capacity strategy is given TargetSize() + δ", arg.String(), "the new desired capacity is not current + δ")
+		okRecv := ctx.Term(ci.Common().Args[0]).Key() == recv.Key()
+		ck.cond(okRecv, rule, ck.P.siteKey(ci)+"/receiver", ck.P.instrPos(ci), funcID(inc), "on the same node group", "", "")
+	}
+	ck.floor(rule, "set-capacity calls in IncreaseSize", len(cs), 1)
+	// inside the strategy
+	fn := a.AwsSetSize
+	sctx := ck.P.NewCtx(fn)
+	n := 0
+	for _, w := range a.W {
+		if w.Class != "W-ASG-SET" {
+			continue
+		}
+		n++
+		key := ck.P.siteKey(w.Call)
+		if w.Fn != fn {
+			ck.fail(rule, key, ck.P.instrPos(w.Call), funcID(w.Fn), "SetDesiredCapacity is issued only by the set-capacity strategy", funcID(w.Fn), "")
+			continue
+		}
+		ck.cond(innermostLoop(fn, w.Call.Block()) == nil, rule, key+"/once", ck.P.instrPos(w.Call), funcID(fn), "exactly one SetDesiredCapacity per request (not in a loop)", "", "")
+		in := w.Call.Common().Args[0]
+		flds := ck.literalFields(sctx, in)
+		dc, nm := flds["DesiredCapacity"], flds["AutoScalingGroupName"]
+		okDC := dc != nil && dc.Kind == "call" && strings.HasSuffix(dc.Name, "aws.Int64") && dc.Args[0].Key() == paramTerm(fn.Params[1]).Key()
+		ck.cond(okDC, rule, key+"/DesiredCapacity", ck.P.instrPos(w.Call), funcID(fn), "DesiredCapacity ← Int64(newSize)", fmt.Sprint(dc), "the request does not carry the computed size")
+		okNM := nm != nil && nm.Kind == "call" && strings.HasSuffix(nm.Name, "aws.String") && nm.Args[0].Kind == "field" && nm.Args[0].Name == "id" && nm.Args[0].Args[0].Key() == paramTerm(fn.Params[0]).Key()
+		ck.cond(okNM, rule, key+"/group", ck.P.instrPos(w.Call), funcID(fn), "AutoScalingGroupName ← String(n.id)", fmt.Sprint(nm), "the request targets another group")
+	}
+	ck.floor(rule, "SetDesiredCapacity sites", n, 1)
+}
+
+// literalFields: for a pointer to a freshly allocated struct literal (&T{…}), the terms stored
+// into its fields (last store per field, anywhere in the function).
+func (ck *Check) literalFields(ctx *Ctx, v ssa.Value) map[string]*Term {
+	out := map[string]*Term{}
+	al, ok := v.(*ssa.Alloc)
+	if !ok {
+		return out
+	}
+	for _, r := range *al.Referrers() {
+		fa, ok := r.(*ssa.FieldAddr)
+		if !ok {
+			continue
+		}
+		f := fieldOfAddr(fa)
+		for _, rr := range *fa.Referrers() {
+			if st, ok := rr.(*ssa.Store); ok && st.Addr == ssa.Value(fa) {
+				out[f.Name()] = ctx.Term(st.Val)
+			}
+		}
+	}
+	return out
 }
